@@ -72,21 +72,26 @@ def spec_scan(ops, impl):
                     after[9000] = "77"
                     if "A" in r and r["A"] != S.fmt_state(after):
                         bad.append((i, "after recovery from crash image %s (state %s) a record was appended and synced; "
-                                       "the next load returns %s" % (" ".join(f[1:]), r.get("C"), r["A"])))
+                                       "the next load returns %s" % (" ".join(f[1:]), r.get("C"), r["A"]), "append"))
                     break
             if not ok:
                 bad.append((i, "crash image %s loads %s (reader: %s); %d entries were fsynced before the crash point"
-                            % (" ".join(f[1:]), r.get("C"), r.get("L"), lo)))
+                            % (" ".join(f[1:]), r.get("C"), r.get("L"), lo), "recover"))
         elif f[0] == "tick":
             want = ",".join("%d=%d" % (k, 100 + k) for k in range(1, int(f[1]) + 1))
             if rep.split("\t")[0] != "tick " + want:
-                bad.append((i, "after a write tick returned, %s of %s saved records are on disk" % (rep, f[1])))
+                bad.append((i, "after a write tick returned, %s of %s saved records are on disk" % (rep, f[1]), "ack"))
     return bad
 
 
+# which part of the Spec a finding id is about (an oracle hit is covered only by a listed finding of the same class)
+CLASSES = {"C02-torn-payload-load-error": "recover", "C02-crash-loses-synced-data": "recover",
+           "C02-append-after-torn-tail-strands": "append", "C02-torn-create-bricks-swamp": "append",
+           "C02-ack-not-durable": "ack"}
+
+
 def spec_violated(rep):
-    bad = spec_scan(rep["ops"], rep["impl"])
-    return bad[0][1] if bad else None
+    return S.first_relevant(rep, spec_scan, K.known_ids("C02"), CLASSES)
 
 
 def run(ctx):
@@ -109,9 +114,9 @@ def run(ctx):
     K.report_mismatch(ctx, spec_violated)
     bad = spec_scan(c.ops, c.impl) if not c.err else []
     mism = set(c.mismatch)
-    unflagged = [(i, why) for i, why in bad if i not in mism and not (i < len(c.flags) and c.flags[i])]
+    unflagged = [h for h in S.relevant_hits(bad, c.flags, K.known_ids("C02"), CLASSES, -1) if h[0] not in mism]
     if unflagged:
-        i, why = unflagged[0]
+        i, why, _ = unflagged[0]
         rep = K.case_replay(c, K.case_of(c, i), upto=i)
         rep.update({"correspondence": "C02", "oracle": "spec_scan", "violations": len(unflagged)})
         ctx.violation("implementation violates the property (not predicted by the model): " + why, rep, tag="spec")
